@@ -1,7 +1,11 @@
 package main
 
 // C08: hub subscriptions. Sequential mode: an operation sequence (push live block, subscribe in one
-// of the four ways, drain a subscription) against a real ready ForkableHub, compared with the model.
+// of the four ways, drain a subscription) against a real ForkableHub, compared with the model.
+// The hub is ready after the boot in most cases; in the "not-ready" classes (V2, finding W1-C08-2) the
+// first live block leaves a hole behind the one-block files, subscriptions are requested from the hub
+// that is not ready yet, and it becomes ready during the case (a linkable live block, or a later live
+// block that finds more one-block files: Passes). The model side is Model/HubAll.v hub_live_all.
 // Concurrent mode: k goroutines subscribe together (start barrier) while a feeder pushes blocks; the
 // observation (what every subscription received, what the hub produced) is judged by the property.
 
@@ -31,6 +35,7 @@ type c08Input struct {
 	Kept    int       `json:"kept"`
 	Boot    []fkBlock `json:"boot"`    // one-block pass + first live block make the hub ready
 	Live    []fkBlock `json:"live"`    // blocks pushed by "push" ops / by the feeder
+	Passes  [][]fkBlock `json:"passes,omitempty"` // one-block files the store offers at the n-th push (missing: none)
 	Ops     []c08Op   `json:"ops"`     // seq mode
 	Workers int       `json:"workers"` // conc mode
 	Kinds   []string  `json:"kinds"`   // conc mode: per worker
@@ -47,6 +52,7 @@ type c08Sub struct {
 	Forks   []fkBlock `json:"forks"`  // first drain of a with-forks subscription (blocks only)
 	Cap     int       `json:"cap"`
 	Dropped bool      `json:"dropped"` // terminated with the capacity error
+	HubReady bool     `json:"hub_ready"` // the hub was ready when the request was made (seq mode; not compared)
 }
 type c08Obs struct {
 	Skip    string    `json:"skip,omitempty"`
@@ -55,6 +61,8 @@ type c08Obs struct {
 	Subs    []c08Sub  `json:"subs"`
 	NSubs   int       `json:"nsubs"`    // subscribers registered at the end
 	Pushed  int       `json:"pushed"`
+	ReadyStart bool   `json:"ready_start"` // hub ready after the boot
+	ReadyEnd   bool   `json:"ready_end"`
 }
 
 func c08Setup(in *c08Input) (*testHub, string) {
@@ -71,10 +79,6 @@ func c08Setup(in *c08Input) (*testHub, string) {
 		th.close()
 		return nil, "boot push"
 	}
-	if !th.fh.IsReady() {
-		th.close()
-		return nil, "hub not ready"
-	}
 	return th, ""
 }
 
@@ -89,8 +93,24 @@ func c08Run(in *c08Input) *c08Obs {
 		return obs
 	}
 	defer th.close()
+	obs.ReadyStart = th.fh.IsReady()
 	// the tracker: subscribed first, never falls behind (drained after every push)
-	tsrc := th.fh.SourceFromBlockNum(th.fh.LowestBlockNum(), hubNop)
+	trackerLow := th.fh.LowestBlockNum()
+	tsrc := th.fh.SourceFromBlockNum(trackerLow, hubNop)
+	if tsrc == nil && !obs.ReadyStart {
+		// a hub that is not ready reports 0 as its lowest block: the lowest number it serves is found by asking
+		// (a refused request registers nothing)
+		var maxNum uint64
+		for _, b := range in.Boot {
+			if b.Num > maxNum {
+				maxNum = b.Num
+			}
+		}
+		for n := uint64(0); n <= maxNum && tsrc == nil; n++ {
+			trackerLow = n
+			tsrc = th.fh.SourceFromBlockNum(n, hubNop)
+		}
+	}
 	if tsrc == nil {
 		obs.Skip = "no tracker"
 		return obs
@@ -124,9 +144,21 @@ func c08Run(in *c08Input) *c08Obs {
 		return &bstream.Cursor{Step: bstream.StepType(st), Block: bstream.NewBlockRef(fkIDStr(e.CBlk.ID), e.CBlk.Num),
 			HeadBlock: bstream.NewBlockRef(fkIDStr(e.Head.ID), e.Head.Num), LIB: bstream.NewBlockRef(fkIDStr(e.Lib.ID), e.Lib.Num)}, bc
 	}
+	// lowest / head number of what the hub serves; a hub that is not ready answers 0 to both questions
+	lowHead := func() (uint64, uint64) {
+		if th.fh.IsReady() {
+			return th.fh.LowestBlockNum(), th.fh.HeadNum()
+		}
+		low, head := trackerLow, trackerLow
+		for _, e := range obs.Log {
+			if (e.Step == 1 || e.Step == 17) && e.Blk.Num > head {
+				head = e.Blk.Num
+			}
+		}
+		return low, head
+	}
 	subscribe := func(kind string, sel, sel2 int) (bstream.Source, c08Sub) {
-		low := th.fh.LowestBlockNum()
-		head := th.fh.HeadNum()
+		low, head := lowHead()
 		span := int(head-low) + 3
 		s := c08Sub{Kind: kind}
 		var src bstream.Source
@@ -162,7 +194,11 @@ func c08Run(in *c08Input) *c08Obs {
 		if pushed >= len(in.Live) {
 			return
 		}
-		_ = th.push(in.Live[pushed], []fkBlock{})
+		pass := []fkBlock{}
+		if pushed < len(in.Passes) && in.Passes[pushed] != nil {
+			pass = in.Passes[pushed]
+		}
+		_ = th.push(in.Live[pushed], pass)
 		pushed++
 	}
 	drainInto := func(l live) {
@@ -191,7 +227,9 @@ func c08Run(in *c08Input) *c08Obs {
 				obs.Log = append(obs.Log, brEventsOf(tracker.VerifDrain())...)
 				obs.LogAt = append(obs.LogAt, len(obs.Log))
 			case "sub":
+				hubReady := th.fh.IsReady()
 				src, s := subscribe(op.Kind, op.Sel, op.Sel2)
+				s.HubReady = hubReady
 				s.At = pushed
 				s.Chunks = [][]fkEvent{}
 				if src != nil {
@@ -241,8 +279,7 @@ func c08Run(in *c08Input) *c08Obs {
 			bc    *brCursor
 		}
 		reqs := make([]req, in.Workers)
-		low := th.fh.LowestBlockNum()
-		head := th.fh.HeadNum()
+		low, head := lowHead()
 		span := int(head-low) + 1
 		for w := 0; w < in.Workers; w++ {
 			k := in.Kinds[w%len(in.Kinds)]
@@ -318,6 +355,7 @@ func c08Run(in *c08Input) *c08Obs {
 	}
 	obs.NSubs = th.fh.VerifSubscribers() - 1 // without the tracker
 	obs.Pushed = pushed
+	obs.ReadyEnd = th.fh.IsReady()
 	return obs
 }
 
@@ -347,6 +385,29 @@ func c08Gen(r *Rng, i int, tier string) any {
 	}
 	in.Boot = arr[:nb]
 	rest := arr[nb:]
+	// not-ready classes: the first live block lies beyond a hole of g arrivals, so the boot leaves the hub
+	// not ready (unless the block happens to link); subscriptions are requested before the next live block.
+	// "hole": the missing blocks arrive live (the first linkable one makes the hub ready), possibly after u
+	// more blocks from beyond the hole; "feed": the next live block comes when the one-block store has
+	// caught up, the bootstrap pass plays the missing files through the Forkable.
+	notReady := r.Chance(30)
+	feed := false
+	if notReady {
+		g := 2 + r.Intn(4)
+		if nb+g+4 < len(arr) {
+			in.Boot = append(append([]fkBlock{}, arr[:nb]...), arr[nb+g])
+			if r.Chance(40) {
+				feed = true
+				rest = arr[nb+g+1:]
+				in.Passes = [][]fkBlock{append([]fkBlock{}, arr[:nb+g+1]...)}
+			} else {
+				u := r.Intn(3)
+				rest = append(append([]fkBlock{}, arr[nb+g+1:nb+g+1+u]...), arr[nb:]...)
+			}
+		} else {
+			notReady = false
+		}
+	}
 	if i%3 == 2 {
 		in.Mode = "conc"
 		in.Workers = 2 + r.Intn(15)
@@ -361,6 +422,9 @@ func c08Gen(r *Rng, i int, tier string) any {
 			in.Sels = append(in.Sels, r.Intn(1<<16))
 		}
 		in.Shape = fmt.Sprintf("conc/w%d", in.Workers)
+		if feed {
+			in.Shape += "/feed"
+		}
 		return in
 	}
 	in.Mode = "seq"
@@ -372,6 +436,15 @@ func c08Gen(r *Rng, i int, tier string) any {
 	kinds := []string{"num", "num", "forks", "cursor", "through"}
 	if slow {
 		in.Ops = append(in.Ops, c08Op{Op: "sub", Kind: "num", Sel: r.Intn(4)})
+	}
+	if notReady {
+		// requests served (or refused) by the hub that is not ready yet
+		for k, n := 0, 1+r.Intn(3); k < n; k++ {
+			in.Ops = append(in.Ops, c08Op{Op: "sub", Kind: kinds[r.Intn(len(kinds))], Sel: r.Intn(1 << 16), Sel2: r.Intn(1 << 16)})
+		}
+		if r.Chance(50) {
+			in.Ops = append(in.Ops, c08Op{Op: "push"}, c08Op{Op: "sub", Kind: kinds[r.Intn(len(kinds))], Sel: r.Intn(1 << 16), Sel2: r.Intn(1 << 16)})
+		}
 	}
 	for k := 0; k < nops; k++ {
 		c := r.Intn(100)
@@ -387,6 +460,9 @@ func c08Gen(r *Rng, i int, tier string) any {
 	in.Shape = "seq"
 	if slow {
 		in.Shape = "seq/slow-consumer"
+	}
+	if feed {
+		in.Shape += "/feed"
 	}
 	return in
 }
@@ -413,15 +489,18 @@ func c08Exec(raw json.RawMessage) (*Case, error) {
 	cs := &Case{Obs: obs, Key: string(raw)}
 	if obs.Skip != "" {
 		cs.Class = "skip/" + obs.Skip
-		cs.Coq = "C08Skip"
+		cs.Coq = "mkC08X [] C08Skip"
 		return cs, nil
 	}
 	subs := make([]string, len(obs.Subs))
-	served, dropped := 0, 0
+	served, dropped, servedNotReady := 0, 0, 0
 	for i, s := range obs.Subs {
 		subs[i] = coqC08Sub(s)
 		if s.Served {
 			served++
+			if in.Mode == "seq" && !s.HubReady {
+				servedNotReady++
+			}
 		}
 		if s.Dropped {
 			dropped++
@@ -446,14 +525,32 @@ func c08Exec(raw json.RawMessage) (*Case, error) {
 	if in.Mode == "conc" {
 		mode = 1
 	}
-	cs.Coq = fmt.Sprintf("mkC08 %d %d %d %s %s %s %s %s %s %d %d", mode, in.First, in.Kept, coqBlocks(in.Boot), coqBlocks(in.Live), coqList(ops),
+	passes := make([]string, len(in.Passes))
+	for i, p := range in.Passes {
+		passes[i] = coqBlocks(p)
+	}
+	cs.Coq = fmt.Sprintf("mkC08X %s (mkC08 %d %d %d %s %s %s %s %s %s %d %d)", coqList(passes), mode, in.First, in.Kept, coqBlocks(in.Boot), coqBlocks(in.Live), coqList(ops),
 		coqEvents(obs.Log), coqNList(logAt), coqList(subs), obs.NSubs, obs.Pushed)
 	cs.Class = in.Shape
+	if !obs.ReadyStart {
+		// the hub was not ready when the first subscriptions were requested
+		if obs.ReadyEnd {
+			cs.Class += "/not-ready-to-ready"
+		} else {
+			cs.Class += "/not-ready"
+		}
+		if servedNotReady > 0 {
+			cs.Class += "/served-before-ready"
+		}
+	}
 	if dropped > 0 {
 		cs.Class += "/dropped"
 	}
 	cs.Nontrivial = served > 0
 	cs.Tags = []string{fmt.Sprintf("subs=%d served=%d dropped=%d log=%d", len(obs.Subs), served, dropped, len(obs.Log))}
+	if servedNotReady > 0 {
+		cs.Tags = append(cs.Tags, fmt.Sprintf("served-before-ready=%d", servedNotReady))
+	}
 	return cs, nil
 }
 
